@@ -125,6 +125,23 @@ Check C12_replacement_host : forall s f choice s' r,
                pr_host rr <> ph.
 Print Assumptions C12_replacement_host.
 
+(* the same, phrased with the stored chunk c that holds f: ph is the recorded host of c's other half
+   (under the invariant f occupies exactly one chunk position, so partner_host finds this chunk) *)
+Theorem C12_replacement_host_chunk : forall s f choice s' r n cl c ph,
+  acct_inv s -> replace_failed_proxy s f choice = (s', Done (Some r)) ->
+  alookup n (st_clusters s) = Some cl -> In c (cl_chunks cl) ->
+  ((ck_proxy0 c = f /\ ph = ck_host1 c) \/ (ck_proxy1 c = f /\ ph = ck_host0 c)) ->
+  (exists h, h <> ph /\ 0 < cnt_of (host_counts (free_proxies s)) h) ->
+  exists rr, alookup r (st_proxies s) = Some rr /\ is_free s (r, rr) = true /\ pr_host rr <> ph.
+Proof. exact replacement_host_chunk. Qed.
+Check C12_replacement_host_chunk : forall s f choice s' r n cl c ph,
+  acct_inv s -> replace_failed_proxy s f choice = (s', Done (Some r)) ->
+  alookup n (st_clusters s) = Some cl -> In c (cl_chunks cl) ->
+  ((ck_proxy0 c = f /\ ph = ck_host1 c) \/ (ck_proxy1 c = f /\ ph = ck_host0 c)) ->
+  (exists h, h <> ph /\ 0 < cnt_of (host_counts (free_proxies s)) h) ->
+  exists rr, alookup r (st_proxies s) = Some rr /\ is_free s (r, rr) = true /\ pr_host rr <> ph.
+Print Assumptions C12_replacement_host_chunk.
+
 (* meaning of partner_host *)
 Theorem C12_partner_host_sound : forall cs f ph, partner_host cs f = Some ph ->
   exists n cl c, In (n, cl) cs /\ In c (cl_chunks cl) /\
@@ -178,6 +195,17 @@ Check C12_alloc_progress : forall s cnts links r,
     alloc_one s cnts links taken a b <> Panic /\
     forall cnts' links', alloc_one s cnts links taken a b = Done (cnts', links') -> alloc_inv cnts' links' r.
 Print Assumptions C12_alloc_progress.
+
+(* what both allocators return: pairwise distinct, registered, untagged proxies
+   (pairs_ok ps pairs := NoDup (flat_pairs pairs) /\ forall a, In a (flat_pairs pairs) -> exists r, alookup a ps = Some r /\ pr_cluster r = None).
+   Hence the `expect("consume_proxy: get proxy resource")` / `expect("add_cluster: failed to get back proxy")` of update.rs, which the
+   model represents by res_or_default and by the None branch of tag_proxies, are never reached. *)
+Theorem C12_allocated_registered : forall s proxy_num first_index choices pairs,
+  keys_sorted (st_proxies s) -> gen_chunks s proxy_num first_index choices = Done pairs -> pairs_ok (st_proxies s) pairs.
+Proof. exact gen_chunks_ok. Qed.
+Check C12_allocated_registered : forall s proxy_num first_index choices pairs,
+  keys_sorted (st_proxies s) -> gen_chunks s proxy_num first_index choices = Done pairs -> pairs_ok (st_proxies s) pairs.
+Print Assumptions C12_allocated_registered.
 
 (* replacement of a failed proxy never panics on a store satisfying the accounting invariant *)
 Theorem C12_replace_no_panic : forall s f choice, acct_inv s -> snd (replace_failed_proxy s f choice) <> Panic.
